@@ -173,7 +173,11 @@ class ClassInfo:
         self.assign_nodes: Dict[str, ast.stmt] = {}
         self.annotations: Dict[str, ast.AST] = {}
         self.decorators = [ast.unparse(d) for d in node.decorator_list]
+        self.nested: Dict[str, "ClassInfo"] = {}
         for st in node.body:
+            if isinstance(st, ast.ClassDef):
+                self.nested[st.name] = ClassInfo(st, module)
+                self.nested[st.name].outer = self
             if isinstance(st, (ast.FunctionDef, ast.AsyncFunctionDef)):
                 fi = FuncInfo(st, module, self)
                 if fi.kind == "setter":
@@ -191,7 +195,8 @@ class ClassInfo:
 
     @property
     def qualname(self):
-        return f"{self.module.short}:{self.name}"
+        outer = getattr(self, "outer", None)
+        return f"{self.module.short}:{(outer.name + '.') if outer else ''}{self.name}"
 
     @property
     def loc(self):
@@ -276,6 +281,19 @@ class Repo:
         self._inprogress: set = set()
         self.fold_stats = {"folded": 0, "unfoldable": 0}
 
+    def add_external_module(self, name: str, relpath: str) -> Module:
+        """a dependency file read as DATA (parsed, never imported): searched under the repo root and in site-packages"""
+        if name in self.modules:
+            return self.modules[name]
+        import glob
+        cands = [self.root / relpath] + [pathlib.Path(p) for p in sorted(glob.glob(f"/venv/lib/python3*/site-packages/{relpath}"))]
+        for c in cands:
+            if c.is_file():
+                m = Module(name, c, c.parents[len(pathlib.Path(relpath).parts) - 1])
+                self.modules[name] = m
+                return m
+        raise AnalysisError(f"dependency source {relpath} not found (needed as data)")
+
     # ---------------------------------------------------------------- lookup helpers
     def module(self, short: str) -> Module:
         name = short if short.startswith("okdmr.") else "okdmr.dmrlib." + short
@@ -304,7 +322,9 @@ class Repo:
 
     def all_classes(self):
         for m in self.modules.values():
-            yield from m.classes.values()
+            for c in m.classes.values():
+                yield c
+                yield from c.nested.values()
 
     def all_functions(self):
         for m in self.modules.values():
